@@ -163,6 +163,47 @@ Expired(hasma, ma, hasexp, exp, now) == IF hasma THEN ma <= 0 ELSE (hasexp /\ ex
    past; a user agent expires it unless a Max-Age > 0 overrides the Expires attribute *)
 UnsetIsExpired(c) == c.unset => (~c.hasmaxage \/ c.maxage <= 0)
 
+(* ---- the coding of a cookie value on the wire (strings as code points) ------------------------------------ *)
+(* What http.cookies produces for a cookie value and what the request side must undo (RFC 2109 style):
+   a value made only of "legal" characters goes out as it is; any other value goes out as a quoted-string
+   in which  "  is  \"  ,  \  is  \\  , and every character outside the plain set (controls, comma,
+   semicolon, 8-bit) is a backslash and three octal digits.  The inverse reads the inner text ONCE from left
+   to right: backslash + [0-3][0-7][0-7] is one character, backslash + anything else is that character.
+   Law (model-checked, CookieRoundTrip in MC_RespHeaders): CookieDecode(CookieEncode(v)) = v.
+   CookieDecodeTwoPass is the wrong design "first all octal escapes, then all quoted pairs": the passes interfere
+   on a literal backslash followed by three octal digits. *)
+CkLegal(c) == (c >= 48 /\ c <= 57) \/ (c >= 65 /\ c <= 90) \/ (c >= 97 /\ c <= 122)
+              \/ c \in {33, 35, 36, 37, 38, 39, 42, 43, 45, 46, 94, 95, 96, 124, 126, 58}
+CkPlain(c) == CkLegal(c) \/ c \in {32, 40, 41, 47, 60, 61, 62, 63, 64, 91, 93, 123, 125}
+CkOct(c)   == <<48 + (c \div 64), 48 + ((c \div 8) % 8), 48 + (c % 8)>>
+CkEsc(c)   == IF c = 34 THEN <<92, 34>> ELSE IF c = 92 THEN <<92, 92>> ELSE IF CkPlain(c) THEN <<c>> ELSE <<92>> \o CkOct(c)
+RECURSIVE CkEscAll(_)
+CkEscAll(v) == IF v = <<>> THEN <<>> ELSE CkEsc(Head(v)) \o CkEscAll(Tail(v))
+CookieEncode(v) == IF v # <<>> /\ \A i \in 1..Len(v) : CkLegal(v[i]) THEN v ELSE <<34>> \o CkEscAll(v) \o <<34>>
+(* set_cookie refuses a value that is not ASCII (documented ValueError) *)
+CookieRefused(v) == \E i \in 1..Len(v) : v[i] > 127
+
+IsOct3(s) == Len(s) >= 4 /\ s[2] \in 48..51 /\ s[3] \in 48..55 /\ s[4] \in 48..55
+OctVal(s) == (s[2] - 48) * 64 + (s[3] - 48) * 8 + (s[4] - 48)
+RECURSIVE CkScan(_)
+CkScan(s) == IF s = <<>> THEN <<>>
+             ELSE IF s[1] # 92 THEN <<s[1]>> \o CkScan(Tail(s))
+             ELSE IF IsOct3(s) THEN <<OctVal(s)>> \o CkScan(SubSeq(s, 5, Len(s)))
+             ELSE IF Len(s) >= 2 THEN <<s[2]>> \o CkScan(SubSeq(s, 3, Len(s)))
+             ELSE s                                       \* a lone trailing backslash stays
+Quoted(s) == Len(s) >= 2 /\ s[1] = 34 /\ s[Len(s)] = 34
+CookieDecode(s) == IF Quoted(s) THEN CkScan(SubSeq(s, 2, Len(s) - 1)) ELSE s
+
+RECURSIVE CkPassOct(_)
+CkPassOct(s) == IF s = <<>> THEN <<>>
+                ELSE IF s[1] = 92 /\ IsOct3(s) THEN <<OctVal(s)>> \o CkPassOct(SubSeq(s, 5, Len(s)))
+                ELSE <<s[1]>> \o CkPassOct(Tail(s))
+RECURSIVE CkPassPair(_)
+CkPassPair(s) == IF s = <<>> THEN <<>>
+                 ELSE IF s[1] = 92 /\ Len(s) >= 2 THEN <<s[2]>> \o CkPassPair(SubSeq(s, 3, Len(s)))
+                 ELSE <<s[1]>> \o CkPassPair(Tail(s))
+CookieDecodeTwoPass(s) == IF Quoted(s) THEN CkPassPair(CkPassOct(SubSeq(s, 2, Len(s) - 1))) ELSE s
+
 (* ---- emission ------------------------------------------------------------------------------ *)
 (* The framework adds the default media type when the handler set no Content-Type and states the
    length of the body; the handler here produces no body. *)
